@@ -31,6 +31,7 @@ DECIDED = [
     "FIND-2 find_related returns / collects an object only inside the block of its relation flag (children, siblings, parents) and recurses with siblings=False, parents=False",
     'FIND-4 find_related: the parent walk repeats only on paths that know `recursive`',
     "TRAV-4 converse: iterproperties / itervalues drop an element only when the caller's filter rejects it",
+    'UNIQ-I / TREE-I (imported from C04 DOM-3, DOM-4 and C03 PAIR-1, DOM-1, OWN-1) sibling names are unique at every attach site and rename; every function that lists a child keeps the parent pointers consistent',
 ]
 NOT_DECIDED = ["relative path arithmetic (_get_relative_path: posixpath.commonprefix/relpath/normpath on name strings)",
                "uniqueness of the child a name denotes (C04)", "value comparisons inside _matches"]
@@ -424,6 +425,14 @@ def run(prog, rep):
                   "the recursive find_related call passes siblings=%s, parents=%s: the search leaves the requested relation" % (kws.get("siblings"), kws.get("parents")),
                   where(fr, c), witness="find_related(children=True, siblings=False, parents=False) returns the start section's sibling or itself")
     parent_walk_rule(rep, fr, "FIND-4")
+    # what "exactly one object" and "exactly the tree" rest on: sibling names are unique (C04) and every object is listed by one parent (C03)
+    from ..report import import_verdicts
+    import_verdicts(prog, rep, "C04", ("DOM-3", "DOM-4"), "UNIQ-I",
+                    "a path names one child per level: an attach site or a rename that lets two siblings share a name makes the path of the "
+                    "shadowed one (and of everything below it) resolve to the other subtree")
+    import_verdicts(prog, rep, "C03", ("PAIR-1", "DOM-1", "OWN-1"), "TREE-I",
+                    "the traversals follow the child lists: an object that stays listed under a previous parent is yielded twice, and from a "
+                    "start node it does not lie below")
     # FIND-3: a found object is never tested for truthiness (an empty Section is falsy: BaseSection defines __len__)
     from ..astutil import truthiness_tests
     for fn in (fi, fr):
